@@ -112,6 +112,28 @@ def c16c(F, R):
             dd = True
             arg = ekey(built[0]["args"][0])
             c = peel(n["cond"])
+            # every label is tested: nothing in the label's arm lets a label skip the test
+            from .p_parse import parent_map as _pmap
+            from .facts import path_constraints
+            _pm = _pmap(f["hir"]["value"])
+            arm_body = None
+            x_ = n
+            while id(x_) in _pm:
+                par_ = _pm[id(x_)]
+                if par_.get("k") == "Match" and par_.get("src") in (None, "Normal"):
+                    for a_ in par_["arms"]:
+                        if (a_ is x_ or a_["body"] is x_ or any(y is x_ for y in walk(a_["body"], pats=False))) and any("ParserNode::Label" in (v or "") for k_, v in pat_variants(a_["pat"]) if k_ == "path"):
+                            arm_body = a_["body"]
+                    if arm_body is not None:
+                        break
+                x_ = par_
+            if arm_body is not None:
+                inside = {id(y) for y in walk(arm_body, pats=False)}
+                skips = [(cnd, want) for cnd, want in path_constraints(_pm, n) if id(cnd) in inside or any(id(y) in inside for y in walk(cnd, pats=False))]
+                if skips:
+                    R.bad("duplicate-test-for-every-label", f"the duplicate test is only reached when `{ekey(skips[0][0])[:60]}` is {skips[0][1]}: a label for which it is not - one defined in `.data`, say - can be defined twice without a word, and every reference silently means the last definition", loc(skips[0][0]))
+                else:
+                    R.ok("duplicate-test-for-every-label", detail="every `ParserNode::Label` reaches the duplicate test", where=loc(n))
             def _core(x):
                 """the label expression without `.clone()`, `.as_str()`, `&`"""
                 x = peel(x)
